@@ -216,6 +216,7 @@ func init() {
 			ruleLzmaFilterCodec(c, r, "")
 			ruleFilterWriterDict(c, r, "")
 			ruleXZWriter(c, r, "")
+			ruleXZWriterFormat(c, r, "") // what the writer emits is what the reader of the round trip parses: varints, CRC placement, index
 			t := getChunkTables(c, r, "")
 			ruleWriter2(c, r, t, "")
 			ruleWriterChunkLegality(c, r, t, "")
